@@ -143,4 +143,5 @@ Proof.
   - destruct (match idict_get nick0 (s_users s) with Some _ => feq nick0 (s_me s) | None => true end); [|exact K].
     cbn [fst]. apply skeys_vmap; [exact K|]. intros ch0. apply ok_del.
   - exact K.
+  - destruct (idict_get c (s_chans s)); [destruct (idict_get (s_me s) (s_users s))|]; exact K.
 Qed.
